@@ -517,7 +517,7 @@ pub fn run(ctx: &Ctx) -> i32 {
         tier,
         seed: ctx.seed,
         level: "exploration",
-        rule: "per scenario 40-100 route tables built by seeded construction programmes of route (static paths, /<prefix>/*tail catch-alls), add_rpc_service, route_layer and merge (depth <= 3); construction panics with the documented message are build-time rejections; every built table receives each pattern instantiated, near misses (extra/missing slash, case, doubled slashes, prefix without slash, empty tail) and ~35 odd strings (empty, no slash, '*', ':', '{}', %2F, '..', NUL, 70 KB, 4-byte UTF-8, random); each leaf and each layer counts its invocations and stamps the response; oracle = reference matcher (static equality; catch-all = prefix + non-empty tail; empty tail is a don't-care between that route and NotFound) and reference layer stacks; no call-time panic; distinct by (match kind, catch-all?, layer depth / not-found class)".into(),
+        rule: "per scenario 40-100 route tables built by seeded construction programmes of route (static paths, /<prefix>/*tail catch-alls), add_rpc_service, route_layer and merge (depth <= 3); construction panics with the documented message are build-time rejections; every built table receives each pattern instantiated, near misses (extra/missing slash, case, doubled slashes, prefix without slash, empty tail) and ~35 odd strings (empty, no slash, '*', ':', '{}', %2F, '..', NUL, 70 KB, 4-byte UTF-8, random); each leaf and each layer counts its invocations and stamps the response; oracle = reference matcher (static equality; catch-all = prefix + non-empty tail; empty tail is a don't-care between that route and NotFound) and reference layer stacks; no call-time panic; distinct by (match kind, catch-all?, layer depth / not-found class) Every fourth scenario constructs its tables on 6 barrier-released threads, each building all of its routers back to back before any is queried (process-wide construction state under contention).".into(),
         assumptions: vec![":param segments are not part of the stated pattern language and are not generated".into()],
         summary,
         extra: Default::default(),
